@@ -146,6 +146,11 @@ def run(ctx, chk):
     # keep_formatting keeps separators: fallback keeps non-alphabetic skipped tokens, join without extra spaces
     tr = ix.func("dateparser.languages.locale:Locale.translate")
     t = " ".join(ast.unparse(tr.node).split())
-    ok = "separator='' if keep_formatting else ' '" in t and _re.search(r"\w+\.split\(date_string, keep_formatting\)", t) is not None
+    # the separator expression inline in the _join call, or hoisted into a local that is then passed as separator=
+    sep_inline = "separator='' if keep_formatting else ' '" in t
+    m_sep = _re.search(r"(\w+) = '' if keep_formatting else ' '", t)
+    sep_local = m_sep is not None and ("separator=%s" % m_sep.group(1)) in t
+    sep_neg = "separator=' ' if not keep_formatting else ''" in t
+    ok = (sep_inline or sep_local or sep_neg) and _re.search(r"\w+\.split\(date_string, keep_formatting\)", t) is not None
     chk.ob(rule, "translate(keep_formatting=True) splits with formatting and joins without inserting spaces", ok, "",
            key={"function": tr.key, "construct": "keep_formatting join"}, file=tr.file, function=tr.qual, line=tr.node.lineno)
